@@ -1588,6 +1588,11 @@ def check_restart(case):
         specs2, lis2 = specs1, lis1
         case2["listeners"] = case["listeners"]
     prop2 = sec["prop"]
+    if prop2.startswith("keplernum") and "el" in case and case["step"] * max_anomaly_rate(case, "true") > 0.3:
+        # the second stream integrates (RK4) with the sampling step as its integration step: beyond 0.3 rad per step the
+        # integrated trajectory is no longer the Keplerian orbit whose anomaly rates bound the generated steps
+        # (a 950 s step on a 2.2 h orbit: anomalies jump by more than the listener's own 2 rad guard)
+        prop2 = "kepler"
     step = timedelta(seconds=case["step"])
     start2 = picked.obj.date
     stale = picked.label
